@@ -386,6 +386,6 @@ def judgeC17 (op : SrvOp) (out : String) : Expect :=
 def SrvOp.judge (prop : String) (op : SrvOp) (out : String) : Expect :=
   -- C16 ("a panicking handler never terminates the process or disturbs other connections") uses the same oracle
   -- C15: "bytes left over from one request never corrupt the handling of the next" - also across connections
-  if prop == "C17" || prop == "C16" || prop == "C15" then judgeC17 op out else .noPanic
+  if prop == "C17" || prop == "C16" || prop == "C15" || prop == "C18" then judgeC17 op out else .noPanic
 
 end Modbus.Driver
